@@ -476,15 +476,15 @@ func c13mapping(c *an.Ctx) {
 			if !ok || !types.Identical(pt.Elem(), st) {
 				return
 			}
-			stored[an.FieldOf(fa).Name()] = s.Val
+			stored[an.FName(an.FieldOf(fa))] = s.Val
 		})
 		for i := 0; i < stt.NumFields(); i++ {
 			f := stt.Field(i)
-			want, ok := table[f.Name()]
+			want, ok := table[an.FName(f)]
 			if !ok {
 				continue
 			}
-			v, has := stored[f.Name()]
+			v, has := stored[an.FName(f)]
 			good := false
 			if has {
 				v = an.Strip(v)
@@ -549,7 +549,7 @@ func c13mapping(c *an.Ctx) {
 			if call, ok := in.(*ssa.Call); ok {
 				if a := lenArgOf(call); a != nil {
 					if f, _ := an.LoadedField(an.Strip(a)); f != nil {
-						seen[f.Name()] = true
+						seen[an.FName(f)] = true
 					}
 				}
 				if an.IsInvokeOf(call, "BackendQueue", "Depth") {
@@ -591,14 +591,14 @@ func c13mapping(c *an.Ctx) {
 				if !ok {
 					return
 				}
-				name := an.FieldOf(fa).Name()
+				name := an.FName(an.FieldOf(fa))
 				if name != "Topics" && name != "Producers" {
 					return
 				}
 				fromSnap := false
 				switch v := an.Strip(s.Val).(type) {
 				case *ssa.Field:
-					fromSnap = v.X == snap && an.FieldOf(v).Name() == name
+					fromSnap = v.X == snap && an.FName(an.FieldOf(v)) == name
 				case *ssa.UnOp:
 					if f, base := an.LoadedField(v); f != nil && f.Name() == name {
 						fromSnap = an.OriginsAll(base, func(o ssa.Value) bool { return o == snap }) || baseIsAllocOf(base, snap)
@@ -665,10 +665,10 @@ func c13mapping(c *an.Ctx) {
 				got := ""
 				switch v := an.Strip(args[skip+i]).(type) {
 				case *ssa.Field:
-					got = an.FieldOf(v).Name()
+					got = an.FName(an.FieldOf(v))
 				case *ssa.UnOp:
 					if f, _ := an.LoadedField(v); f != nil {
-						got = f.Name()
+						got = an.FName(f)
 					}
 				}
 				c.Check(got == want, fn, "text stats label "+m[1]+" shows "+want, call.Pos(), "", sprintf("the text /stats prints field %q under the label %q (expected %s): text and JSON report different numbers", got, m[1], want))
